@@ -1,10 +1,14 @@
 package broker
 
-import "verif/harness/core"
+import (
+	"fmt"
+
+	"verif/harness/core"
+)
 
 // C02 (broker role): receiver side of QoS 1/2.
 func C02(c *core.Ctx) {
-	c.Rep.Bound = "HIST, broker role: PUBLISH QoS 1 / QoS 2 (payload A), repeated PUBLISH with the same id (DUP, payload B), PUBREL, repeated PUBREL over packet ids {1,2}, an 8000-byte filler that wraps the rings, one subscriber granted QoS 2; BFS de-duplicated on model + implementation state to depth 6 (quick) / 8 (thorough) and every sequence to depth 4 (quick) / 5 (thorough); client role: see C20/C12 harness (library Client against a scripted server)"
+	c.Rep.Bound = "HIST, broker role: PUBLISH QoS 1 / QoS 2 (payload A), repeated PUBLISH with the same id (DUP, payload B), PUBREL, repeated PUBREL over packet ids {1,2}, an 8000-byte filler that wraps the rings, one subscriber granted QoS 2; BFS de-duplicated on model + implementation state to depth 6 (quick) / 8 (thorough) and every sequence to depth 4 (quick) / 5 (thorough); bursts of 17-34 exchanges in flight after 0-8 completed ones, released in three orders; client role: see C20/C12 harness (library Client against a scripted server)"
 	c.Rep.Rule = "per packet one PUBACK/PUBREC/PUBCOMP with the same id; QoS 1 handed on once per PUBLISH; QoS 2 handed on at most once per exchange, never before its PUBREL, at the latest once its PUBREL and those of earlier exchanges are processed, with the content of the first PUBLISH; distinct = canonical model (open exchanges with released/delivered flags) + implementation state"
 	p8k := big(8000, 7)
 	var ops []Action
@@ -33,7 +37,76 @@ func C02(c *core.Ctx) {
 	if c.HasViolation() || c.Expired() {
 		return
 	}
+	c02burst(c, comps)
+	if c.HasViolation() || c.Expired() {
+		return
+	}
 	c02client(c)
+}
+
+// c02burst: many QoS 2 exchanges in flight at once (the inbound queue grows
+// beyond its initial 16 slots while its indices are wrapped), released in
+// several orders.
+func c02burst(c *core.Ctx, comps map[string]bool) {
+	n := 0
+	for _, done := range []int{0, 3, 5, 8} {
+		for _, inflight := range []int{17, 20, 34} {
+			for _, order := range []string{"fifo", "lifo", "rot5"} {
+				n++
+				if c.NShards > 1 && n%c.NShards != c.Shard {
+					continue
+				}
+				if !c.Thorough() && (inflight == 34 || done == 8) {
+					continue
+				}
+				if c.Expired() || c.HasViolation() {
+					return
+				}
+				hist := []Action{conn("S", "s", true), sub("S", 1, "t", 2), conn("X", "x", true)}
+				id := uint16(100)
+				for i := 0; i < done; i++ {
+					id++
+					hist = append(hist, Action{Kind: "pub2", Client: "X", Topic: "t", QoS: 2, ID: id, Payload: fmt.Sprintf("done-%d", i)})
+				}
+				var ids []uint16
+				for i := 0; i < inflight; i++ {
+					id++
+					ids = append(ids, id)
+					hist = append(hist, pub("X", "t", 2, id, fmt.Sprintf("m-%d", i)))
+				}
+				idx := make([]int, len(ids))
+				for i := range idx {
+					idx[i] = i
+				}
+				switch order {
+				case "lifo":
+					for i, j := 0, len(idx)-1; i < j; i, j = i+1, j-1 {
+						idx[i], idx[j] = idx[j], idx[i]
+					}
+				case "rot5":
+					idx = append(idx[5:], idx[:5]...)
+				}
+				for _, i := range idx {
+					hist = append(hist, Action{Kind: "pubrel", Client: "X", ID: ids[i]})
+				}
+				spec := &HistSpec{Name: "burst", Comps: comps}
+				r := spec.RunHistory(hist, false)
+				c.Rep.Evaluations++
+				c.Rep.Executions++
+				c.Rep.States++
+				c.Rep.Nontrivial++
+				c.Rep.Transitions += int64(r.Steps)
+				if r.Violation != "" {
+					rr := spec.RunHistory(hist, true)
+					if c.Violate("C02 burst :: "+violClass(r.Violation), core.Replay{Scenario: fmt.Sprintf("burst: %d completed exchanges, then %d QoS 2 exchanges in flight, released %s", done, inflight, order), Message: r.Violation, Log: tailS(rr.Trace, 30)}) {
+						return
+					}
+				}
+			}
+		}
+	}
+	c.Rep.Scenarios++
+	c.Rep.Sample(map[string]interface{}{"search": "burst", "completed_before": []int{0, 3, 5, 8}, "in_flight": []int{17, 20, 34}, "orders": []string{"fifo", "lifo", "rot5"}})
 }
 
 func init() { core.Register("C02", C02) }
